@@ -225,8 +225,9 @@ fn plan_case(o: &mut Out, i: &PlanIn, seeds: (u64, u64)) {
 // ---------------------------------------------------------------------------------------------
 // Generators
 // ---------------------------------------------------------------------------------------------
-const MIN: u64 = MAX_RESIDUAL_VALUE.into_u64();
-const CAPD: u64 = DENOM_CAP.into_u64();
+// asserted equal to the repository's MAX_RESIDUAL_VALUE / DENOM_CAP at start-up
+const MIN: u64 = 1_000_000;
+const CAPD: u64 = 1_000_000_000_000;
 const ZIP317_BUFFER: u64 = 15_000;
 const PREP_FEE: u64 = 80_000;
 
@@ -304,7 +305,8 @@ fn rand_oracle(r: &mut Rng, adversarial: bool) -> OSpec {
 /// A balance assembled from a few denominations plus their buffers and fees, then nudged.
 fn structured_total(r: &mut Rng, buffer: u64, fee: u64) -> u64 {
     let s = series();
-    let parts = 1 + r.below(*r.pick(&[1u64, 2, 4, 8, 20, 40]));
+    let width = *r.pick(&[1u64, 2, 4, 8, 20, 40]);
+    let parts = 1 + r.below(width);
     let mut t: u128 = 0;
     for _ in 0..parts {
         t += *r.pick(&s) as u128 + buffer as u128;
@@ -450,13 +452,19 @@ fn l125_cases(o: &mut Out, r: &mut Rng, nrand: usize) {
         let hi = match r.below(4) {
             0 => r.u64(),
             1 => r.below(MAX_MONEY + 1),
-            2 => r.below(1 << r.below(64)),
+            2 => {
+                let sh = r.below(64);
+                r.below(1 << sh)
+            }
             _ => (*r.pick(&all)).wrapping_add(r.below(5)).wrapping_sub(2),
         };
         // the floor is documented to be a power of the radix; other positive floors are also run (0 never terminates)
         let fl = match r.below(4) {
             0 | 1 => *r.pick(&pows),
-            2 => 1 + r.below(1 << r.below(63)),
+            2 => {
+                let sh = r.below(63);
+                1 + r.below(1 << sh)
+            }
             _ => 1 + r.below(100),
         };
         o.bump("l125_random");
@@ -476,7 +484,10 @@ fn canon_cases(o: &mut Out, r: &mut Rng, nrand: usize) {
     for _ in 0..nrand {
         vs.push(match r.below(4) {
             0 => r.below(MAX_MONEY + 1),
-            1 => r.below(20) * *r.pick(&all) % (MAX_MONEY + 1),
+            1 => {
+                let m = r.below(20) as u128;
+                ((m * *r.pick(&all) as u128) % (MAX_MONEY as u128 + 1)) as u64
+            }
             2 => r.below(10 * CAPD),
             _ => r.below(1000) * MIN,
         });
@@ -546,6 +557,8 @@ fn stored_cases(o: &mut Out, r: &mut Rng, nrand: usize) {
 }
 
 fn main() {
+    assert_eq!(MIN, MAX_RESIDUAL_VALUE.into_u64());
+    assert_eq!(CAPD, DENOM_CAP.into_u64());
     quiet_panics();
     let a = args();
     let mut r = Rng::new(a.seed, 16);
